@@ -507,6 +507,19 @@ func (q *qgen) clauseFrom(t *triple.Triple, vm map[string]string, level int) str
 	var b strings.Builder
 	c := &semantic.GraphClause{}
 	defer func() { q.lastExp = encClause(c) }()
+	if tp := t.Predicate(); len(earlier) > 0 && tp.Type() == predicate.Temporal && r.chance(1, 10) {
+		// a clause that extracts nothing but the anchor of an interval-bounded predicate, under the name of a time an
+		// earlier clause bound: constants everywhere else; it holds for a row only if a matching triple is anchored
+		// at the row's value of that name
+		c.S, c.O = t.Subject(), t.Object()
+		if op, err := t.Object().Predicate(); err == nil {
+			c.OTemporal = op.Type() == predicate.Temporal
+		}
+		c.PID, c.PTemporal = string(tp.ID()), true
+		c.PAnchorAlias = earlier[r.intn(len(earlier))].name
+		q.hist["anchor-alias-only-clause"]++
+		return fmt.Sprintf(`%s "%s"@[,] at %s %s`, t.Subject(), tp.ID(), c.PAnchorAlias, t.Object())
+	}
 	if r.chance(1, 3) {
 		c.S = t.Subject()
 		b.WriteString(t.Subject().String())
@@ -581,6 +594,18 @@ func (q *qgen) clauseFrom(t *triple.Triple, vm map[string]string, level int) str
 		}
 		c.PID, c.PTemporal = string(p.ID()), true
 		fmt.Fprintf(&b, `"%s"@[%s,%s]`, p.ID(), lo, hi)
+	}
+	if c.PID != "" && c.PAnchorBinding == "" && r.chance(1, 3) {
+		// AT after an interval-bounded predicate: the anchor of the matched triple under a name — a new one, or the
+		// name an earlier clause gave that instant (then the clause has to agree with the row on it)
+		ta, _ := p.TimeAnchor()
+		c.PAnchorAlias = name("t:" + instantNanos(*ta))
+		if len(earlier) > 0 && r.chance(1, 2) {
+			// … or the name of any time an earlier clause bound: mostly another instant, so the clause fails the row
+			c.PAnchorAlias = earlier[r.intn(len(earlier))].name
+		}
+		b.WriteString(" at " + c.PAnchorAlias)
+		q.hist["at-after-bounded-predicate"]++
 	}
 	b.WriteString(" ")
 	o := t.Object()
@@ -689,6 +714,25 @@ func (q *qgen) queryText(graphs []string) string {
 			" xg=" + strings.Join(xgs, ",") + " xgb=" + hx("?t") + " xp=" + hx("?t") + "|" + hx("") + "|0|0;" + hx("?s") + "|" + hx("?n") + "|1|0 xlo=- xhi=-"
 		return fmt.Sprintf(`select ?t, count(?s) as ?n from %s where { ?s "%s"@[?t] ?o } group by ?t having %s?t %s %s;`,
 			strings.Join(graphs, ", "), id, neg, op, fmtT(tm))
+	}
+	if q.mode == "having" && !q.meta && r.chance(1, 10) {
+		// two anchors compared with each other: the same instant may be written in two zones
+		op := []string{"=", "<", ">"}[r.intn(3)]
+		neg := ""
+		if r.chance(1, 3) {
+			neg = "not "
+		}
+		var xgs []string
+		for _, g := range graphs {
+			xgs = append(xgs, hx(g))
+		}
+		ida, idb := []string{"p", "q"}[r.intn(2)], []string{"p", "q"}[r.intn(2)]
+		q.lastProj, q.lastCls, q.lastTail, q.lastOuts = nil, nil, "", []string{"?t", "?u", "?s"}
+		q.intent = " xc=" + encClause(&semantic.GraphClause{SBinding: "?s", PID: ida, PAnchorBinding: "?t", PTemporal: true, OBinding: "?o"}) + ";" +
+			encClause(&semantic.GraphClause{SBinding: "?z", PID: idb, PAnchorBinding: "?u", PTemporal: true, OBinding: "?w"}) +
+			" xg=" + strings.Join(xgs, ",") + " xp=" + hx("?t") + "|" + hx("") + "|0|0;" + hx("?u") + "|" + hx("") + "|0|0;" + hx("?s") + "|" + hx("") + "|0|0 xlo=- xhi=-"
+		return fmt.Sprintf(`select ?t, ?u, ?s from %s where { ?s "%s"@[?t] ?o . ?z "%s"@[?u] ?w } having %s?t %s ?u;`,
+			strings.Join(graphs, ", "), ida, idb, neg, op)
 	}
 	n := 1 + r.intn(3)
 	if r.chance(1, 6) {
